@@ -1,9 +1,10 @@
 import XmpModel.Seq
 import XmpModel.Tick
 import XmpModel.Virt
+import XmpModel.Fx
 /-! Native driver for the C16 correspondence (line protocol of harness/c16_frames.c, `D ` prefix
 already stripped by tools/checks/c16.py).  One answer line per `wf`, `start`, `von`, `frame`,
-`ctl`, `st26`, `tick`, `tfac`, `vop`, `vopf` line; module description lines are silent. -/
+`ctl`, `fx`, `fxrow`, `tslide`, `pbuf`, `st26`, `tick`, `tfac`, `vop`, `vopf` line; module description lines are silent. -/
 open Xmp Xmp.Seq
 
 def ints (ws : List String) : List Int := ws.map fun w => w.toInt?.getD 0
@@ -31,6 +32,7 @@ def ctlOf (kind arg : Int) : Ctl :=
   | 3 => .setRow arg
   | 4 => .seek arg
   | 5 => .stop
+  | 7 => .bufReset
   | _ => .restart
 
 /-- split a token list at "|" -/
@@ -77,6 +79,40 @@ def vopOf (name : String) (a : List Int) : Option Virt.Op :=
 /-- mantissa·2^exp as a fraction -/
 def fracOf (mant exp : Int) : Int × Int :=
   if exp ≥ 0 then (mant * 2 ^ exp.toNat, 1) else (mant, 2 ^ (-exp).toNat)
+
+def envOf (v : List String) : Fx.Env :=
+  let i := fun (k : Nat) => (v.getD k "0").toInt?.getD 0
+  let (tfN, tfD) := fracOf (i 4) (i 5)
+  { quirk := i 0, flags := i 1, readEvent := i 2, flowMode := i 3, tfN := tfN, tfD := tfD, gvolbase := i 6, chn := i 7,
+    far := i 8 != 0 }
+
+/-- is `min_bpm` sensitive to the floating-point rounding of `time_factor` (bracket ± 2⁻⁴⁰)? -/
+def minBpmFragile (e : Fx.Env) : Bool :=
+  let k : Int := 2 ^ 40
+  let lo := { e with tfN := e.tfN * (k - 1), tfD := e.tfD * k }.minBpmEff
+  let hi := { e with tfN := e.tfN * (k + 1), tfD := e.tfD * k }.minBpmEff
+  lo != e.minBpmEff || hi != e.minBpmEff
+
+def loopsOf : List Int → List Fx.Loop
+  | a :: b :: rest => { start := a, count := b } :: loopsOf rest
+  | _ => []
+
+def flowOf (v : List Int) (loops : List Int) : Fx.Flow :=
+  let g := fun (i : Nat) => v.getD i 0
+  { speed := g 0, bpm := g 1, gvol := g 2, st26 := g 3, pbreak := g 4, jump := g 5, delay := g 6, jumpline := g 7,
+    loopDest := g 8, rowdelay := g 9, rowdelaySet := g 10, jumpInPat := g 11, loopParam := g 12, loopStart := g 13,
+    loopCount := g 14, loopActive := g 15, loops := loopsOf loops }
+
+def flowStr (f : Fx.Flow) (bpmWild : Bool) : String :=
+  let a := [f.speed].map toString ++ [if bpmWild then "*" else toString f.bpm] ++
+    [f.gvol, f.st26, f.pbreak, f.jump, f.delay, f.jumpline, f.loopDest, f.rowdelay, f.rowdelaySet, f.jumpInPat,
+     f.loopParam, f.loopStart, f.loopCount, f.loopActive].map toString
+  let l := f.loops.flatMap fun x => [toString x.start, toString x.count]
+  " ".intercalate a ++ " |" ++ (if l.isEmpty then "" else " " ++ " ".intercalate l)
+
+def chansOfEv : List Int → List (Fx.Ev × Int)
+  | a :: b :: c :: d :: vm :: rest => ({ fxt := a, fxp := b, f2t := c, f2p := d }, vm) :: chansOfEv rest
+  | _ => []
 
 partial def loop (h : IO.FS.Stream) (m : SeqMod) : IO Unit := do
   let line ← h.getLine
@@ -126,6 +162,37 @@ partial def loop (h : IO.FS.Stream) (m : SeqMod) : IO Unit := do
     let s := stOfList (ints rest)
     let s' := ctl m s (ctlOf (kind.toInt?.getD 0) (arg.toInt?.getD 0))
     IO.println ("c " ++ stToStr s')
+    loop h m
+  | "fx" :: rest =>
+    match splitBar rest with
+    | [ev, args, fl, lp] =>
+      let env := envOf ev
+      let a := ints args
+      let g := fun (i : Nat) => a.getD i 0
+      match Fx.processFx env (g 0) (g 1) (g 2) (g 3) (g 4) (g 5) (flowOf (ints fl) (ints lp)) with
+      | some (f, vm) => IO.println s!"x {flowStr f (minBpmFragile env)} | {vm}"
+      | none => IO.println "x unmodelled"
+    | _ => IO.println "x parse-error"
+    loop h m
+  | "fxrow" :: rest =>
+    match splitBar rest with
+    | [ev, args, fl, lp, chans] =>
+      let env := envOf ev
+      let a := ints args
+      let g := fun (i : Nat) => a.getD i 0
+      match Fx.firstTick env (g 0) (g 1) (g 2) (chansOfEv (ints chans)) (flowOf (ints fl) (ints lp)) with
+      | some f => IO.println s!"r {flowStr f (minBpmFragile env)}"
+      | none => IO.println "r unmodelled"
+    | _ => IO.println "r parse-error"
+    loop h m
+  | "tslide" :: b :: rest =>
+    -- IT tempo slide: each channel's slide in turn, clamped
+    let f0 : Fx.Flow := { (default : Fx.Flow) with bpm := b.toInt?.getD 0 }
+    IO.println s!"ts {((ints rest).foldl Fx.tempoSlideStep f0).bpm}"
+    loop h m
+  | "pbuf" :: lp :: rest =>
+    -- stop rule of xmp_play_buffer: how many of the frames with these loop counters it plays
+    IO.println s!"b {framesUntilLimit (lp.toInt?.getD 0) (ints rest)}"
     loop h m
   | ["st26", v] =>
     let s := st26Step { stOfList [] with st26 := v.toInt?.getD 0 }
